@@ -41,6 +41,9 @@ TRANSPARENT = {
 }
 
 
+# accessors of dependencies that are read through their own definition (taken from the dependency's facts, not modelled by hand)
+DEP_ACCESSORS = {}         # callee as written at call sites -> its definition (none enabled: `Path::ident` is named by too many reviewed terms)
+
 GENERIC_SENSITIVE = {"Rng::gen", "Rng::r#gen"}
 
 
@@ -565,7 +568,7 @@ def _string_builder(t):
                 for g in e[-1]:
                     k = g[3] if g[2] else _not(g[3])
                     c = k if c is None else ("op", "&&", [c, k])
-                val = ("lit", piece[0][1]) if len(piece) == 1 and piece[0][0] == "lit" else ("fmt", piece)
+                val = ("lit", piece[0][1]) if len(piece) == 1 and piece[0][0] == "lit" else x if piece == [("arg", "", x)] else ("fmt", piece)
                 piece = [("arg", "", _mk_if(c, val, ("lit", "")))]
             parts.extend(piece)
         merged = []
@@ -1057,6 +1060,30 @@ def _mk_if_raw(c, t, e):
     if t[0] == "struct" and e[0] == "struct" and t[1] == e[1] and t[2] == e[2] and t[3] is not None and e[3] is not None and set(t[3]) == set(e[3]):
         # if c { S { a: x1, b: y } } else { S { a: x2, b: y } }  ==  S { a: if c { x1 } else { x2 }, b: y }
         return ("struct", t[1], t[2], {f: (t[3][f] if t[3][f] == e[3][f] else _mk_if_raw(c, t[3][f], e[3][f])) for f in t[3]})
+    if (t[0] == "fmt") != (e[0] == "fmt") or (t[0] == "fmt" and e[0] == "fmt"):
+        # text with a common beginning / end: if c { A } else { format!("{A}{B}") }  ==  format!("{A}{}", if c { "" } else { B })
+        def parts(x):
+            ps = list(x[1]) if x[0] == "fmt" else [("lit", x[1])] if x[0] == "lit" and isinstance(x[1], str) else [("arg", "", x)]
+            return [("arg", "", p_[2]) if p_[0] == "arg" and p_[1] in ("", "new_display") else p_ for p_ in ps]     # `{}` however the piece got there
+        pt, pe = parts(t), parts(e)
+        i = 0
+        while i < min(len(pt), len(pe)) and pt[i] == pe[i]:
+            i += 1
+        j = 0
+        while j < min(len(pt), len(pe)) - i and pt[len(pt) - 1 - j] == pe[len(pe) - 1 - j]:
+            j += 1
+        mt, me = pt[i:len(pt) - j], pe[i:len(pe) - j]
+        if (i or j) and (not mt or not me) and (mt or me):
+            def text(ps):
+                if not ps:
+                    return ("lit", "")
+                if len(ps) == 1 and ps[0][0] == "lit":
+                    return ("lit", ps[0][1])
+                if len(ps) == 1 and ps[0][0] == "arg" and ps[0][1] == "":
+                    return ps[0][2]
+                return ("fmt", ps)
+            mid = _mk_if_raw(c, text(mt), text(me))
+            return ("fmt", pt[:i] + [("arg", "", mid)] + pt[len(pt) - j:])
     if t == ("lit", True) and e == ("lit", False):
         return c
     if t == ("lit", False) and e == ("lit", True):
@@ -1326,7 +1353,9 @@ def rewrite(t, fn):
     if k in ("field",):
         b = rewrite(t[1], fn)
         if b[0] == "tup" and str(t[2]).isdigit() and int(t[2]) < len(b[1]):
-            n = b[1][int(t[2])]          # (a, b).0  ==  a
+            return b[1][int(t[2])]          # (a, b).0  ==  a   (a component that is already rewritten: fn is not applied to it a second time)
+        elif b[0] == "struct" and isinstance(b[3], dict) and t[2] in b[3]:
+            return b[3][t[2]]               # S { f: a, .. }.f  ==  a
         else:
             n = (k, b, t[2])
     elif k == "proj":
@@ -1853,6 +1882,30 @@ class Norm:
         def is_push(e, guards_len):
             return e[0] == "mutcall" and e[1] in PUSH and e[2] == "" and len(e[3]) == 1 and len(e[-1]) == guards_len
 
+        def sep_test(e):
+            # the `if <another one follows / this is not the first>` test of a separator
+            return len(e[-1]) == 2 and any(x[0] == "call" and x[1] in ("loop::peek_next", "Iterator::enumerate") for x in subterms(e[-1][1][3]))
+
+        # several pushes per element (some of them conditional) are one push of their text
+        merged, i = [], 0
+        while i < len(et):
+            a = et[i]
+            if a[0] == "mutcall" and a[1] in PUSH and a[2] == "" and len(a[3]) == 1 and a[-1] and a[-1][0][:2] == ("guard", "for") and len(a[-1]) <= 2 \
+                    and not sep_test(a):
+                run, j = [a], i + 1
+                while j < len(et) and et[j][0] == "mutcall" and et[j][1] in PUSH and et[j][2] == "" and len(et[j][3]) == 1 and et[j][-1] \
+                        and et[j][-1][0] == a[-1][0] and len(et[j][-1]) <= 2 and not sep_test(et[j]):
+                    run.append(et[j])
+                    j += 1
+                if len(run) >= 2:
+                    text = _string_builder(("mut", "?", ("call", "String::new", []), [tuple(list(e[:-1]) + [list(e[-1][1:])]) for e in run]))
+                    if text[0] == "fmt":
+                        merged.append(("mutcall", "String::push_str", "", [text], [a[-1][0]]))
+                        i = j
+                        continue
+            merged.append(a)
+            i += 1
+        et = merged
         out, i = [], 0
         while i < len(et):
             a = et[i]
@@ -2378,11 +2431,14 @@ class Norm:
 
     def transparent_fn(self, callee, nargs=None):
         """the body of a repo-local helper that rules look through (private, non-recursive, named by no rule), else None"""
-        if self.program is None or self.keep is None or not callee.startswith(LOCAL_CRATES):
+        if self.program is None or self.keep is None:
             return None
-        if cshort(callee) in self.keep:
+        dep = callee in DEP_ACCESSORS
+        if not dep and not callee.startswith(LOCAL_CRATES):
             return None
-        fn = self.program.body(callee)
+        if cshort(callee) in self.keep and not dep:
+            return None
+        fn = self.program.body(DEP_ACCESSORS.get(callee, callee))
         if fn is None:
             # generic instantiations print with their substs at call sites: retry modulo generic arguments
             import re as _re
@@ -2397,7 +2453,7 @@ class Norm:
             return None
         if nargs is not None and len(fn.get("params", [])) != nargs:
             return None
-        if fn.get("pub"):
+        if fn.get("pub") and not dep:
             return None       # public API functions keep their name; only private / nested helpers are transparent
         if any(x.get("k") in ("Call", "MethodCall") and x.get("callee") == fn["path"] for x in walk(fn["body"])):
             return None       # recursive helper
@@ -3571,6 +3627,11 @@ def pat_repr(p):
         return pat_repr(p["p"])
     if k == "PTuple":
         return "(" + ",".join(pat_repr(q) for q in p["ps"]) + ")"
+    if k in ("PTupleStruct", "PStruct") and _is_struct_pat(p):
+        subs = [pat_repr(q) for q in p["ps"]] if k == "PTupleStruct" else [pat_repr(f["p"]) for f in p["fields"]]
+        if all(x in ("$", "_") for x in subs):
+            # destructuring a struct into binders cannot fail: the same as binding (or ignoring) the whole value
+            return "$" if "$" in subs else "_"
     if k == "PTupleStruct":
         return ("" if _is_struct_pat(p) else cshort(p.get("path", "?"))) + "(" + ",".join(pat_repr(q) for q in p["ps"]) + ")"
     if k == "PStruct":
